@@ -699,6 +699,9 @@ def run(prog, rep, tier):
              'only under `op_string is None`)')
     if check_explicit_op_string(prog, rep) < 3:
         raise AnalysisError('PARAM-explicit-kept: fewer than 3 assignments to op_string')
+    rep.rule('RANGE-all-term-kinds', 'H_MPO.max_range accounts for every kind of term the MPO is built '
+             'from (exponentially decaying terms: np.inf)')
+    check_range_all_kinds(prog, rep)
     rep.rule('EXPORT-op-string', 'consumers of CouplingTerms.to_TermList() (operator strings dropped) '
              'do not put the identity between the operators')
     check_export_op_string(prog, rep)
@@ -807,3 +810,35 @@ def check_explicit_op_string(prog, rep):
                                   '(conditions here: %s): the explicit string of the coupling is '
                                   'silently dropped' % (key_text(st)[:50], sorted(gs)), st.lineno)
     return n
+
+
+# ------------------------------------------------------------------ RANGE-all-term-kinds
+def check_range_all_kinds(prog, rep):
+    """RANGE-all-term-kinds: calc_H_MPO builds the MPO from three kinds of terms (onsite, coupling,
+    exponentially decaying) and then states `H_MPO.max_range`. The stated range has to account for
+    every kind it built from that has a range: if the exponentially decaying terms go into the graph
+    (`edt` among the arguments of MPOGraph.from_terms), a store to `H_MPO.max_range` depends on them
+    too (`edt.max_range()` under `not edt.is_empty`), not only on the coupling terms."""
+    m = prog.module('tenpy/models/model.py')
+    f = m.func('CouplingModel.calc_H_MPO')
+    srcs = {}
+    for st in stmts_of(f):
+        if isinstance(st, ast.Assign) and isinstance(st.targets[0], ast.Name):
+            srcs[st.targets[0].id] = unparse(st.value)
+    edt = [k for k, v in srcs.items() if 'exp_decaying_terms' in v]
+    used = [k for k in edt if any(isinstance(c, ast.Call) and unparse(c.func).endswith('from_terms')
+                                  and k in unparse(c) for c in ast.walk(f))]
+    stores = [st for st in stmts_of(f) if isinstance(st, ast.Assign) and
+              unparse(st.targets[0]).endswith('.max_range')]
+    if not stores:
+        raise AnalysisError('calc_H_MPO: store to H_MPO.max_range not found')
+    ok = not used or any(any(k in unparse(st.value) for k in used) for st in stores)
+    rep.instance('RANGE-all-term-kinds', {'stores': [key_text(s)[:50] for s in stores],
+                                          'exp_decaying_in_graph': bool(used), 'accounted': ok})
+    if not ok:
+        rep.violation('RANGE-all-term-kinds', m, 'CouplingModel.calc_H_MPO', 'range-ignores:' + used[0],
+                      'the MPO is built from the exponentially decaying terms `%s` as well, but '
+                      'H_MPO.max_range is stated from %s only: a model with such terms claims a '
+                      'finite (even zero) range instead of np.inf' %
+                      (used[0], [unparse(s.value) for s in stores]), stores[0].lineno)
+    return 1
